@@ -14,6 +14,17 @@ CLAIMED = {
   note="Trusts the reference model checks/c03_model.py (textbook definitions) and CPython's rule that an address is re-issued only after its owner died; terms <=25 nodes.",
   technique="deterministic simulation: simulated allocator (address re-use faults) + heap-machine op schedules + reference-model and finite-model oracles",
   ref="DESIGN.md §4 C03"),
+ 'C07': dict(
+  text=("Seeded deterministic simulation of printing / parsing histories in one process: up to four documents (library "
+        "theories at PRNG-chosen limits, and synthetic variants declaring one constant at different types, as two users' "
+        "theories do) share the printer memo, the settings object, the current theory and context; ops switch documents, "
+        "print and round-trip terms, sequents, types, instantiations and exported proof items under all printer settings, "
+        "mutate terms type-preservingly, flip settings persistently and fail inside nested setting scopes. Every round trip "
+        "must hold wherever in the history it happens; a failure is re-tried with an empty memo to separate history "
+        "effects from input-level ones. Sampling, not proof."),
+  note="Terms come from library statements, sub-terms and type-preserving mutations; the oracle is parse(print(t)) == t itself, so a defect identical with and without history is classified as input-level by the shape of the smallest failing sub-term.",
+  technique="deterministic simulation: multi-document histories over the process-global printer memo / settings / theory, fork-per-run snapshots, memo-cleared re-execution as history classifier",
+  ref="DESIGN.md §4 C07"),
  'C12': dict(
   text=("Seeded deterministic simulation of process histories against the real loader: the disk and its mtime clock "
         "behind logic/basic.py are an in-memory SimFS; every run starts as a fresh process w.r.t. holpy (holpy is imported "
@@ -25,6 +36,27 @@ CLAIMED = {
   note="The reference loader re-uses holpy's item parser and Theory.unchecked_extend; unchanged-mtime rewrites and file creation/deletion after the first scan are excluded; big theories only in the thorough tier.",
   technique="deterministic simulation: in-memory file system + simulated mtime clock + injected I/O faults and interrupted loads, reference-loader oracle, ddmin history shapes",
   ref="DESIGN.md §4 C12"),
+ 'C13': dict(
+  text=("Seeded deterministic simulation of editing histories: 1-3 sessions over recorded library proofs multiplexed over "
+        "the process globals, operations applied to the live state or to copies (undo stack), perturbed applications, "
+        "operations failing half-way on a copy, export -> re-import, process restart with only exported text surviving "
+        "(the run continues in a new child of the world snapshot), disturbers between a session's operations, and the "
+        "solver answering `unknown` behind a deterministic resource limit. After every completed operation the "
+        "statement's invariants are evaluated: full re-check with exactly the open gaps, last line = goal, contiguous "
+        "numbering and earlier-visible citations (own definition), gap-free acceptance, export/re-import equality, "
+        "copy and undo-stack isolation. Sampling, not proof."),
+  note="Genuine defects of the unchanged tree (revert_intro, apply_theorem_for export, a bound-name clash) are listed in known_findings.json by signature; a state already failing an invariant is not re-judged for it. Z3 runs for real behind rlimit.",
+  technique="deterministic simulation: multi-session op schedules over process globals + copies, fault injection (half-way failures, solver unknown, restart), invariant oracles after every op, ddmin replay files",
+  ref="DESIGN.md §4 C13"),
+ 'C14': dict(
+  text=("Rides on the C13 simulator: at PRNG-chosen prefixes of recorded proofs (and of perturbed / re-imported states) "
+        "search_method is called for an open goal and 0-2 visible facts and, possibly after other actors have run, every "
+        "returned suggestion is applied to a fresh copy with declared parameters supplied; the outcome must match the "
+        "advertisement (succeeds or asks for parameters, sub-goals among the advertised, vanished goals closed by a fact "
+        "or trivially, `solves` leaves no gap, advertised facts appear as new proved lines, original untouched)."),
+  note="Where a parameter value had to be guessed a failing application is not a verdict and the fact comparison is skipped; search_method raising is outside the statement.",
+  technique="deterministic simulation: search/apply separated in time by other actors, every suggestion applied on copies, advertised-vs-actual outcome oracle",
+  ref="DESIGN.md §4 C14"),
  'C15': dict(
   text=("Seeded deterministic simulation of the solver's decision / propagation / resolution schedule: the order in which "
         "prover/sat.py iterates its sets of variable names is fixed by the world's PYTHONHASHSEED and simulator-chosen names "
@@ -60,7 +92,7 @@ NA = {
  'C19': "numeric value before/after a rule application; input-only; the timer/thread code in integral/slagle.py is not part of the property",
  'C20': "functions of program, annotations and state; input-only",
 }
-PENDING = {k: 'not yet claimed: check under construction in this build (DESIGN.md §4)' for k in ('C07','C13','C14')}
+PENDING = {}
 
 def main():
     checks = []
